@@ -320,6 +320,9 @@ def line_text(l, sp):
     else:
         raise ValueError("cannot render " + k)
     s = pre + body
+    if l.get("cmt"):
+        # a comment written for this line in particular (renderer-only)
+        return s + (" " if s else "") + "; " + l["cmt"]
     if sp.comment:
         sp.n += 1
         # every line meets every text over the descriptors of a case
@@ -367,7 +370,7 @@ KEEP = {"k", "ln", "lab", "mn", "ops", "w", "elems", "e", "s", "n", "r", "args",
 def clean(x):
     """The abstract line as the specification sees it (renderer-only fields dropped)."""
     if isinstance(x, dict):
-        return {k: clean(v) for k, v in x.items() if k not in ("text", "spn", "form", "sp", "pfx", "chr", "ins")}
+        return {k: clean(v) for k, v in x.items() if k not in ("text", "spn", "form", "sp", "pfx", "chr", "ins", "cmt")}
     if isinstance(x, list):
         return [clean(v) for v in x]
     return x
